@@ -137,12 +137,55 @@ ID_KEYS = ["_.fields.get('id')", "_.fields['id']"]
 NODE_IDS = ["NODE.fields.get('id')", "NODE.fields['id']"]
 
 
+def m_exists_other(p: Path):
+    """`clashes = [.. for _ in POP if COND]; if clashes: error`  ==  exists another binding with the same id.
+    -> (verdict, msg) or None when the path is not of that form."""
+    import re as _re
+    neg_empty = [a for s, a in p.lits if not s and a[0] == "empty" and isinstance(a[1], str) and a[1].startswith("[")]
+    if len(neg_empty) != 1:
+        return None
+    m_ = _re.fullmatch(r"\[(.+?) for _ in (.+?) if (.+)\]", neg_empty[0][1])
+    if not m_:
+        return None
+    pop, cond = m_.group(2), m_.group(3)
+    conj = [c.strip() for c in _re.split(r"\s+and\s+", cond)]
+    key_eq = excl = pop_can = False
+    extra = []
+    for c in conj:
+        c0 = c.replace('"', "'")
+        if any(c0 in ("%s == %s" % (a, b), "%s == %s" % (b, a)) for a in ID_KEYS for b in NODE_IDS):
+            key_eq = True
+        elif c0 in ("_ is not NODE", "NODE is not _", "_ != NODE", "NODE != _", "not _ is NODE", "id(_) != id(NODE)"):
+            excl = True
+        elif c0 in ("_.protocol == 'can'", "'can' == _.protocol"):
+            pop_can = True
+        else:
+            extra.append(c0)
+    if pop in ("FCP.get_matching_impls('can')",):
+        pop_can = True
+    if not key_eq:
+        return None
+    others = [a for s, a in p.lits if s and a != ("eq", "NODE.protocol", "'can'")] + [a for s, a in p.lits if not s and a is not neg_empty[0] and not (a[0] == "isnone" and a[1] in NODE_IDS)]
+    if extra:
+        return False, "the search for another binding with the same id is narrowed by %s: bindings it excludes (e.g. two bindings of the same struct) may share a frame id undetected" % "; ".join(extra)
+    if others:
+        return False, "check is weakened by extra condition(s): %s" % "; ".join(fmt_atom(x) for x in others)
+    if not excl:
+        return False, "the binding under test is not excluded from the search: every CAN binding with an id clashes with itself"
+    if not pop_can:
+        return False, "the search runs over all bindings, not the CAN bindings"
+    return True, ""
+
+
 def m_dbc_dup_ids(paths: List[Path]):
     if len(paths) != 1:
         return None, "expected one error condition, found %d" % len(paths)
     p = paths[0]
     if p.binds:
         return None, "unexpected quantifier"
+    eo = m_exists_other(p)
+    if eo is not None:
+        return eo
     pos = [a for s, a in p.lits if s]
     neg = [a for s, a in p.lits if not s]
     dups = [a for a in pos if a[0] in ("dup", "count-cmp")]
@@ -371,6 +414,23 @@ def run(eng, rep) -> None:
     r092(eng, rep, regs)
     r093(eng, rep)
     r095(eng, rep, regs, func_row)
+    # itertools.groupby only groups *adjacent* equal keys
+    seen_g = set()
+    for f0, varg, cat, owner in regs:
+        for q in sorted(cg.reachable([f0.qual])):
+            g = prog.functions.get(q)
+            if g is None or q in seen_g or not (g.module.name.startswith(("fcp.verifier", "fcp_dbc", "fcp_can_c", "fcp_cpp")) or g is f0):
+                continue
+            seen_g.add(q)
+            for n in ast.walk(g.node):
+                if isinstance(n, ast.Call) and (dotted(n.func) or "").split(".")[-1] == "groupby" and n.args:
+                    a0 = n.args[0]
+                    srt = isinstance(a0, ast.Call) and dotted(a0.func) == "sorted"
+                    if isinstance(a0, ast.Name):
+                        vs_ = [v for k, v, st in Defs(g.node).values(a0.id) if v is not None]
+                        srt = bool(vs_) and all(isinstance(v, ast.Call) and dotted(v.func) == "sorted" for v in vs_)
+                    rep.check(srt, "R09.4", g.file, g.qual, norm(n, 60), "groupby over a sorted sequence",
+                              "itertools.groupby groups only adjacent equal keys and the sequence is not sorted by that key: a repeated value that is not next to its twin is not found, so the verdict depends on declaration order")
     # ---- R09.4 -----------------------------------------------------------------------
     stateless(eng, rep, "R09.4", verification_path(eng))
     for f, varg, cat, owner in regs:
